@@ -122,9 +122,9 @@ class World:
 
 
 LETTERS = ["min0", "min1", "max0", "max1", "min2", "min3", "max3", "min4", "subj0", "subj1", "subjL", "subjLz", "subj5", "subjBad",
-           "ubx", "lby", "ubxN", "uby", "read",
-           "s:auto", "s:SLSQP", "s:trust-constr", "s:L-BFGS-B", "s:linprog", "s:highs-ds"]
-NO_MODEL_OP = {"subjBad"}        # rejected as a whole: the problem must be exactly as before (no model operation)
+           "minBad", "maxBad", "ubx", "lby", "ubxN", "uby", "read",
+           "s:auto", "s:SLSQP", "s:trust-constr", "s:L-BFGS-B", "s:Nelder-Mead", "s:Powell", "s:linprog", "s:highs-ds"]
+NO_MODEL_OP = {"subjBad", "minBad", "maxBad"}        # rejected calls: the problem must be exactly as before (no model operation)
 
 
 def op_term(w: World, L: str, toggles):
@@ -163,7 +163,7 @@ def bnd_t(b):
 
 class Runner:
     """Executes letters on one live Problem; bound-edit values alternate so that repeated edits change something."""
-    UB, LB, UBY = [2.0, 3.0], [-1.0, -2.0], [2.5, 3.5]
+    UB, LB, UBY = [2.0, 0.0, 3.0], [-1.0, -2.0, 0.0], [2.5, 0.0, 3.5]
 
     def __init__(self, variant):
         from optyx import Problem
@@ -173,14 +173,14 @@ class Runner:
         self.bad_list = None
 
     def toggles(self):
-        return {"ubx": self.UB[self.nub % 2], "lby": self.LB[self.nlb % 2], "uby": self.UBY[self.nuby % 2]}
+        return {"ubx": self.UB[self.nub % 3], "lby": self.LB[self.nlb % 3], "uby": self.UBY[self.nuby % 3]}
 
     def edit(self, L):
         """Non-solve letters.  Returns False for solve letters."""
         w, P, t = self.w, self.P, self.toggles()
-        if L.startswith("min"):
+        if L.startswith("min") and L[3:].isdigit():
             P.minimize(w.objs[int(L[3])])
-        elif L.startswith("max"):
+        elif L.startswith("max") and L[3:].isdigit():
             P.maximize(w.objs[int(L[3])])
         elif L == "subj0":
             P.subject_to(w.cons[0])
@@ -201,6 +201,15 @@ class Runner:
             except (ConstraintError, TypeError, ValueError):
                 if len(P.constraints) != n0:
                     self.bad_list = f"rejected, but {len(P.constraints) - n0} constraint(s) of the list were kept"
+        elif L in ("minBad", "maxBad"):
+            # a rejected objective (not an expression): nothing about the problem - objective, ORIENTATION, caches - may change
+            before = (P.objective, P.sense)
+            try:
+                (P.minimize if L == "minBad" else P.maximize)("x + 2*y")
+                self.bad_list = f"{L}: a string was accepted as objective"
+            except Exception:
+                if (P.objective, P.sense) != before and not (before[0] is None):
+                    self.bad_list = f"{L}: rejected, but objective / sense changed from {before[1]!r} to {P.sense!r}"
         elif L == "ubx":
             w.x.ub = t["ubx"]; self.nub += 1
         elif L == "lby":
@@ -404,7 +413,7 @@ def run(rep: vk.Report):
         for st_ in pyseen:
             if st_.get("letter") == "subjBad" and bad_reports < 3:
                 bad_reports += 1
-                rep.violation({"kind": "atomicity", "obligation": "a rejected subject_to(list) leaves the problem as it was",
+                rep.violation({"kind": "atomicity", "obligation": "a rejected subject_to(list) / minimize / maximize call leaves the problem as it was",
                                "witness": {"sequence": list(s), "world": variant, "problem": st_["problem"]}}, concrete=True)
         cases.add(case, {"sequence": list(s), "world": variant, "steps": pyseen}, kinds=set(s) | {f"len{len(s)}", f"world{variant}"})
     fails = cases.run(shard=250)
